@@ -106,7 +106,14 @@ class CSSParser:
         return style
 
     def parseString(
-        self, cssText, encoding=None, href=None, media=None, title=None, validate=None
+        self,
+        cssText,
+        encoding=None,
+        href=None,
+        media=None,
+        title=None,
+        validate=None,
+        _override=True,
     ):
         """Parse `cssText` as :class:`~cssutils.css.CSSStyleSheet`.
         Errors may be raised (e.g. UnicodeDecodeError).
@@ -151,9 +158,16 @@ class CSSParser:
             )
             sheet._setFetcher(self.__fetcher)
             # tokenizing this ways closes open constructs and adds EOF
+            if _override:
+                override, detected = encoding, None
+            else:
+                # parseUrl: an encoding found with the resource (HTTP, BOM or
+                # @charset) is not forced upon the sheets it imports
+                override, detected = None, encoding
             sheet._setCssTextWithEncodingOverride(
                 self.__tokenizer.tokenize(cssText, fullsheet=True),
-                encodingOverride=encoding,
+                encodingOverride=override,
+                encoding=detected,
             )
         finally:
             # also if e.g. decoding or a fetcher raises
@@ -228,6 +242,7 @@ class CSSParser:
                 media=media,
                 title=title,
                 validate=validate,
+                _override=(enctype == 0),
             )
 
     def setFetcher(self, fetcher=None):
